@@ -220,3 +220,51 @@ Definition canonical_em (k : Z) (T : list Z) : list Z :=
   [0; 1] ++ repeat 255 (Z.to_nat (k - zlen T - 3)) ++ [0] ++ T.
 Definition rfc8017_em (k : Z) (T : list Z) : option (list Z) :=
   if k <? zlen T + 11 then None else Some (canonical_em k T).
+
+(* ---- dispatch on the scheme NAME (strings), as the public entry points do --------------------
+   rsakey.py: verify() compares `padding` with "pkcs1"/"pss" exactly, WITHOUT normalising it;
+   the rsa-pss guard is its first statement.  hashAndVerify()/hashAndSign() lower-case rsaScheme
+   and hAlg first and then call verify()/sign(); sign() lower-cases `padding` itself.  So the
+   normalisation always happens BEFORE the key_type guard.  (ASCII lower-casing.) *)
+From Coq Require Import Ascii.
+Definition lower_ascii (c : ascii) : ascii :=
+  let n := nat_of_ascii c in
+  if (Nat.leb 65 n && Nat.leb n 90)%bool then ascii_of_nat (n + 32) else c.
+Fixpoint lower (s : string) : string :=
+  match s with EmptyString => EmptyString | String c t => String (lower_ascii c) (lower t) end.
+
+Definition pad_of_name (name : string) : padding :=
+  if String.eqb name "pkcs1" then PadPkcs1 else if String.eqb name "pss" then PadPss else PadOther.
+
+Section NamedEntryPoints.
+  Variable hash : list Z -> list Z.     (* secureHash(., hAlg): message hash and PSS hash *)
+  Variable hLen : Z.
+
+  (* RSAKey.verify(sigBytes, bytes, padding, hashAlg, saltLen) *)
+  Definition rsa_verify_named (key_is_pss : bool) (n e : Z) (sig data : list Z) (padname : string)
+             (hashAlg : option string) (sLen : Z) : res bool :=
+    rsa_verify hash hLen key_is_pss n e sig data (pad_of_name padname) hashAlg sLen.
+
+  (* RSAKey.hashAndVerify(sigBytes, bytes, rsaScheme='PKCS1', hAlg='sha1', sLen=0) *)
+  Definition rsa_hashAndVerify (key_is_pss : bool) (n e : Z) (sig msg : list Z) (rsaScheme hAlg : string)
+             (sLen : Z) : res bool :=
+    rsa_verify_named key_is_pss n e sig (hash msg) (lower rsaScheme) (Some (lower hAlg)) sLen.
+
+  (* signed.py SignedObject.verify_signature: hashAndVerify(sig[offset:], tbs, hAlg=alg) with the
+     DEFAULT rsaScheme 'PKCS1'; one leading zero byte of an over-long signature is dropped
+     (documented interoperability workaround); not verified -> ValueError, modelled as Ok false *)
+  Definition signed_object_verify (key_is_pss : bool) (n e : Z) (sig tbs : list Z) (alg : string) : res bool :=
+    let sig' := match sig with
+                | 0 :: rest => if numBytes n + 1 =? zlen sig then rest else sig
+                | _ => sig
+                end in
+    rsa_hashAndVerify key_is_pss n e sig' tbs "PKCS1" alg 0.
+
+  (* RSAKey.sign / hashAndSign *)
+  Definition rsa_sign_named (n : Z) (priv : Z -> Z) (data : list Z) (padname : string)
+             (hashAlg : option string) (salt : list Z) : res (list Z) :=
+    rsa_sign hash hLen n priv data (pad_of_name (lower padname)) hashAlg salt.
+  Definition rsa_hashAndSign (n : Z) (priv : Z -> Z) (msg : list Z) (rsaScheme hAlg : string)
+             (salt : list Z) : res (list Z) :=
+    rsa_sign_named n priv (hash msg) (lower rsaScheme) (Some (lower hAlg)) salt.
+End NamedEntryPoints.
